@@ -77,6 +77,23 @@ CHECKS = {
             "5/C12"),
 }
 
+CHECKS["C20"] = (
+    "Arith, Arith_Trace, Limbs",
+    "TLA+ spec Arith.tla (exact rational arithmetic, contagion table, quot/rem/mod; identities as invariants on all "
+    "operand pairs) checked by TLC, its result table replayed into the real functions through five call paths; results "
+    "for random operands up to 10^40 validated by TLC with limb arithmetic (Arith_Trace + Limbs.tla)",
+    "TLC checks on every ordered pair of a 42-element universe (ints, ratios, exactly representable decimals and floats, "
+    "zeros and signs) that x = y*quot + rem, the sign and size rules of rem and mod, that an exact result is an int iff it "
+    "is integral and that result types depend only on operand types; every expected [type, value] is then compared with "
+    "the real + - * / quot rem mod called directly, through apply, with inlining disabled, with var indirection and from "
+    "literal source text. Random big integers and ratios go the other way: observed results are checked inside TLC with "
+    "arbitrary-precision limb arithmetic.",
+    "Trusted: TLC; Limbs.tla (its results are cross-checked by the identities themselves: a wrong limb product would "
+    "reject correct results, i.e. raise a machinery-visible alarm, not hide a defect); concretisation of n/d to "
+    "int/Fraction/Decimal/float. With a float or decimal operand only the result type is demanded exactly (the property "
+    "claims exactness for integers and ratios); the value is compared with tolerance 1e-9. Zero divisors are excluded.",
+    "5/C20")
+
 NOT_APPLICABLE = []
 
 
